@@ -376,13 +376,15 @@ def units(tier, seed):
         oo.update(o or {})
         out.append(Unit('C10/' + name, 'symx.props.c10', func, kw, oo))
 
-    D, P = (2, 2) if tier == 'quick' else (4, 3)
-    for op in O.catalogue():
+    for (D, P) in ([(2, 2)] if tier == 'quick' else [(4, 3), (7, 1), (1, 4)]):
+      for op in O.catalogue():
         if 'c14only' in op.tags:
             continue
         if op.npfn is None and not (op.name.startswith('inv') or op.name.startswith('solve')):
             continue
         add('zeroth/%s/D%d,P%d' % (op.name, D, P), 'h_zeroth', o=({'float_rel': 1e-12, 'exact_eval': True} if 'tight' in op.tags else None), opname=op.name, D=D, P=P)
+        if (D, P) not in ((2, 2), (4, 3)):
+            continue
         if len(op.args) == 1 and op.group in ('elementwise', 'special') and op.args[0].dom in ('any', 'gtm1', 'abs1', 'unit', 'pos'):
             add('zeroth/%s/tiny argument/D2,P1' % op.name, 'h_zeroth', o={'float_rel': 1e-11}, opname=op.name, D=2, P=1, scale='1/10000000000000')
     for cmpop in CMP:
